@@ -7,14 +7,16 @@ The seven headers of `src/builtins/pcap.rs` and `src/builtins/protocols/*.rs`: t
 (`From<&Header> for Vec<u8>`), `get` (the `get_*` methods as the VM calls them) and `set` (the `set_*` methods:
 range checks in Ethernet/VLAN/IPv4, truncating casts in pcap/IPv6/TCP/UDP).
 
-The code is modelled as it is, including:
-* TCP: `flags` is the whole 16-bit word of bytes 12–13; `toBytes` is 18 bytes long (the urgent pointer is never written);
-  `data_off` is a separate `u8` that is not written back; `set_data_off` keeps 8 bits; `set_flags` keeps 16.
-* IPv4: `toBytes` is always 20 bytes (options are read and dropped).
-* IPv6: `set_flow_label` keeps 32 bits and `toBytes` ORs bits 16–23 of it into the traffic-class byte.
+Points worth knowing:
+* TCP: data offset (4 bits) and reserved + control bits (12 bits) share the word of bytes 12–13; the header keeps the
+  12 bits in `flags` and the offset in `dataoff`; the `flags` property is the 8 control bits (the reserved bits are kept
+  and written back); the header is `max(dataoff·4, 20)` bytes long, the bytes after the fixed 20 are `options`.
+* IPv4: the header is `max(ihl·4, 20)` bytes long, the bytes after the fixed 20 are `options`.
+* IPv6: the flow label setter keeps 20 bits.
 
 Invariants that hold in every reachable header and let `|` be written `+`:
-`version, ihl < 16`, `dscp < 64`, `ecn < 4`, `flags < 8`, `fragoff < 8192` (IPv4), `priority < 8` (VLAN).
+`version, ihl < 16`, `dscp < 64`, `ecn < 4`, `flags < 8`, `fragoff < 8192` (IPv4), `priority < 8` (VLAN),
+`dataoff < 16`, `flags < 4096` (TCP), `flow < 2^20` (IPv6).
 -/
 namespace P2sh.Proto
 
@@ -141,20 +143,24 @@ structure Ipv4Hdr where
   checksum : Nat
   src : List Nat
   dst : List Nat
-  options : List Nat := []   -- read by `from_bytes` into a local vector and dropped: always empty in the code as it is
+  options : List Nat         -- the bytes between the fixed 20 and `max(ihl·4, 20)`
 deriving DecidableEq, Repr
 
 namespace Ipv4Hdr
 def size : Nat := 20
+/-- header length announced by the first byte, never less than the fixed part -/
+def hdrLen (b : Nat → Nat) : Nat := max (b 0 % 16 * 4) 20
 def parse (b : Nat → Nat) : Ipv4Hdr :=
   { version := b 0 / 16 % 16, ihl := b 0 % 16, dscp := b 1 / 4, ecn := b 1 % 4,
     totlen := u16be (b 2) (b 3), ident := u16be (b 4) (b 5),
     flags := u16be (b 6) (b 7) / 8192, fragoff := u16be (b 6) (b 7) % 8192,
     ttl := b 8, proto := b 9, checksum := u16be (b 10) (b 11),
-    src := [b 12, b 13, b 14, b 15], dst := [b 16, b 17, b 18, b 19] }
+    src := [b 12, b 13, b 14, b 15], dst := [b 16, b 17, b 18, b 19],
+    options := (List.range (hdrLen b - 20)).map fun i => b (20 + i) }
 def toBytes (h : Ipv4Hdr) : Bytes :=
   [(h.version * 16 % 256 + h.ihl) % 256, (h.dscp * 4 % 256 + h.ecn) % 256] ++ be16 h.totlen ++ be16 h.ident
     ++ be16 ((h.flags * 8192 % 65536 + h.fragoff) % 65536) ++ [h.ttl, h.proto] ++ be16 h.checksum ++ h.src ++ h.dst
+    ++ h.options
 def get (h : Ipv4Hdr) : PP → Option FieldVal
   | .version => some (.num h.version) | .ihl => some (.num h.ihl) | .totlen => some (.num h.totlen)
   | .id => some (.num h.ident) | .dscp => some (.num h.dscp) | .ecn => some (.num h.ecn)
@@ -217,7 +223,7 @@ def setAddr : SetVal → Option (List Nat)
 def set (h : Ipv6Hdr) (p : PP) (v : SetVal) : Option Ipv6Hdr :=
   match p with
   | .trafficclass => (casted 8 v).map fun n => { h with tc := n }
-  | .flowlabel => (casted 32 v).map fun n => { h with flow := n }
+  | .flowlabel => (casted 32 v).map fun n => { h with flow := n % 1048576 }
   | .len => (casted 16 v).map fun n => { h with plen := n }
   | .nextheader => (casted 8 v).map fun n => { h with nh := n }
   | .hoplimit => (casted 8 v).map fun n => { h with hop := n }
@@ -238,24 +244,27 @@ structure TcpHdr where
   win : Nat
   checksum : Nat
   urgent : Nat
-  options : List Nat := []   -- never read by the code as it is (used by the model of the proposed repair only)
+  options : List Nat         -- the bytes between the fixed 20 and `max(dataoff·4, 20)`
 deriving DecidableEq, Repr
 
 namespace TcpHdr
 def size : Nat := 20
+/-- header length announced by the data offset, never less than the fixed part -/
+def hdrLen (b : Nat → Nat) : Nat := max (b 12 / 16 * 4) 20
 def parse (b : Nat → Nat) : TcpHdr :=
   { srcport := u16be (b 0) (b 1), dstport := u16be (b 2) (b 3),
     seq := u32be (b 4) (b 5) (b 6) (b 7), ack := u32be (b 8) (b 9) (b 10) (b 11),
-    dataoff := b 12 / 16, flags := u16be (b 12) (b 13),
-    win := u16be (b 14) (b 15), checksum := u16be (b 16) (b 17), urgent := u16be (b 18) (b 19) }
-/-- eighteen bytes: the urgent pointer is not written -/
+    dataoff := b 12 / 16, flags := u16be (b 12) (b 13) % 4096,
+    win := u16be (b 14) (b 15), checksum := u16be (b 16) (b 17), urgent := u16be (b 18) (b 19),
+    options := (List.range (hdrLen b - 20)).map fun i => b (20 + i) }
 def toBytes (h : TcpHdr) : Bytes :=
-  be16 h.srcport ++ be16 h.dstport ++ be32 h.seq ++ be32 h.ack ++ be16 h.flags ++ be16 h.win ++ be16 h.checksum
+  be16 h.srcport ++ be16 h.dstport ++ be32 h.seq ++ be32 h.ack ++ be16 (h.dataoff % 16 * 4096 + h.flags % 4096)
+    ++ be16 h.win ++ be16 h.checksum ++ be16 h.urgent ++ h.options
 def get (h : TcpHdr) : PP → Option FieldVal
   | .srcport => some (.num h.srcport) | .dstport => some (.num h.dstport)
   | .seq => some (.num h.seq) | .ack => some (.num h.ack)
   | .dataoff => some (.num h.dataoff) | .len => some (.num h.dataoff)
-  | .flags => some (.num h.flags) | .winsize => some (.num h.win)
+  | .flags => some (.num (h.flags % 256)) | .winsize => some (.num h.win)
   | .checksum => some (.num h.checksum) | .urgent => some (.num h.urgent)
   | _ => none
 def set (h : TcpHdr) (p : PP) (v : SetVal) : Option TcpHdr :=
@@ -264,9 +273,9 @@ def set (h : TcpHdr) (p : PP) (v : SetVal) : Option TcpHdr :=
   | .dstport => (casted 16 v).map fun n => { h with dstport := n }
   | .seq => (casted 32 v).map fun n => { h with seq := n }
   | .ack => (casted 32 v).map fun n => { h with ack := n }
-  | .dataoff => (casted 8 v).map fun n => { h with dataoff := n }
-  | .len => (casted 8 v).map fun n => { h with dataoff := n }
-  | .flags => (casted 16 v).map fun n => { h with flags := n }
+  | .dataoff => (casted 8 v).map fun n => { h with dataoff := n % 16 }
+  | .len => (casted 8 v).map fun n => { h with dataoff := n % 16 }
+  | .flags => (casted 16 v).map fun n => { h with flags := h.flags / 256 % 16 * 256 + n % 256 }
   | .winsize => (casted 16 v).map fun n => { h with win := n }
   | .checksum => (casted 16 v).map fun n => { h with checksum := n }
   | .urgent => (casted 16 v).map fun n => { h with urgent := n }
